@@ -29,13 +29,15 @@ def run(ctx):
     bl = runner.get_bashlex()
     g = gen.Gen(random.Random(seed + 70), heredocs=False)
     pool = ['a', 'a b', 'a | b', 'a && b', 'a; b', 'a;', 'a &', 'a || b && c', '! a', '(a)', '{ a; }', 'if a; then b; fi', 'for i in 1; do a; done',
-            'case x in a) b;; esac', 'a >b', 'a "b c"', "a 'b'", 'a $(b)', 'a # c', 'a\nb', 'a \\\n b', 'a ', ' a', 'f() { a; }', 'a=1 b', 'while a; do b; done']
+            'case x in a) b;; esac', 'a >b', 'a "b c"', "a 'b'", 'a $(b)', 'a # c', 'a\nb', 'a \\\n b', 'a ', ' a', 'f() { a; }', 'a=1 b', 'while a; do b; done',
+            # comments inside the body: whatever a comment contains, it ends at its newline and delimits nothing
+            'a #\n#)\n', "a # x\n# don't\n", 'a #c\n#(\n', 'a # `\n# "\n', 'a # )', 'a #c\n #)\n', 'a; b # (\n#)\n', "a # '\n", 'a #\n\n#)\n']
     for _ in range(250 if quick else 4000):
         s = g.script(nlines=1).rstrip('\n')
         if rng.random() < 0.1: s = s + '\n' + g.script(nlines=1).rstrip('\n')
         pool.append(s)
     # a comment on the last line would swallow the closing parenthesis; '$((' is arithmetic expansion
-    pool = [s for s in common.dedup(pool) if accepted(bl, s) and '#' not in s.split('\n')[-1]]
+    pool = [s for s in common.dedup(pool) if accepted(bl, s) and '#' not in s.split('\n')[-1]]      # (a comment on the LAST line would swallow the closer)
     pool = [(' ' + s) if s.startswith('(') else s for s in pool]
     cases = []
     def emb(pre, opener, a, closer, post):
